@@ -32,9 +32,11 @@ import (
 	"net/http/httptest"
 	"os"
 	"path/filepath"
+	"runtime"
 	"sort"
 	"strconv"
 	"strings"
+	"sync"
 
 	"github.com/ethereum/go-ethereum/common"
 	"github.com/ghodss/yaml"
@@ -425,33 +427,92 @@ func (w *world) opByHandler(name string) *yamlOp {
 
 var criticalOps = map[string]bool{"shutdown": true, "SubmitDecryptionTrigger": true}
 
-// canon: when non-nil, this is the canonical request of that operation (reachability oracle).
-func (w *world) runCase(c reqCase, canon *yamlOp) {
-	run := w.run
-	id := run.NextID()
+// execResult is what serving one request on every stack gave (computed by a worker, judged
+// and recorded in generation order afterwards).
+type execResult struct {
+	first, second, unseeded [4]observation
+	hasUnseeded             [4]bool
+	parsedOK                bool
+	path, rawPath           string
+	panicMsg                string
+}
+
+func execCase(stacks []*stack, c reqCase) execResult {
+	var res execResult
 	raw := rawRequest(c)
-	var obs [4]observation
-	var parsed *http.Request
-	for i, st := range w.stacks {
-		var o1, o2 observation
-		var panicked bool
-		var msg string
-		panicked, msg = vh.Guard(func() {
-			o1, parsed = serveOnce(st, raw, true)
-			o2, _ = serveOnce(st, raw, true)
+	for i, st := range stacks {
+		var parsed *http.Request
+		panicked, msg := vh.Guard(func() {
+			res.first[i], parsed = serveOnce(st, raw, true)
+			res.second[i], _ = serveOnce(st, raw, true)
+			// production path (chi takes its routing context from its own pool)
+			if st.full && res.first[i].Class != "baduri" {
+				res.unseeded[i], _ = serveOnce(st, raw, false)
+				res.hasUnseeded[i] = true
+			}
 		})
 		if panicked {
-			run.Violate(vh.Violation{Key: "C18:panic-escaped-router", What: "serving the request panicked through the router: " + msg, Case: c})
-			return
+			res.panicMsg = st.name + ": " + msg
+			return res
 		}
-		obs[i] = o1
+		if parsed != nil {
+			res.parsedOK, res.path, res.rawPath = true, parsed.URL.Path, parsed.URL.RawPath
+		}
+	}
+	return res
+}
+
+type job struct {
+	c     reqCase
+	canon *yamlOp // when non-nil, c is the canonical request of that operation (reachability oracle)
+}
+
+// runAll executes the jobs on `workers` private copies of the four stacks and records them
+// in order.
+func (w *world) runAll(jobs []job, pool *pgxpool.Pool) {
+	workers := runtime.NumCPU()
+	if workers > 12 {
+		workers = 12
+	}
+	if workers > len(jobs) {
+		workers = 1
+	}
+	results := make([]execResult, len(jobs))
+	var wg sync.WaitGroup
+	for k := 0; k < workers; k++ {
+		stacks := w.stacks
+		if k > 0 {
+			stacks = newStacks(pool)
+		}
+		wg.Add(1)
+		go func(k int, stacks []*stack) {
+			defer wg.Done()
+			for i := k; i < len(jobs); i += workers {
+				results[i] = execCase(stacks, jobs[i].c)
+			}
+		}(k, stacks)
+	}
+	wg.Wait()
+	for i := range jobs {
+		w.record(jobs[i].c, jobs[i].canon, results[i])
+	}
+}
+
+func (w *world) record(c reqCase, canon *yamlOp, res execResult) {
+	run := w.run
+	id := run.NextID()
+	if res.panicMsg != "" {
+		run.Violate(vh.Violation{Key: "C18:panic-escaped-router", What: "serving the request panicked through the router: " + res.panicMsg, Case: c})
+		return
+	}
+	obs := res.first
+	for i, st := range w.stacks {
+		o1, o2 := res.first[i], res.second[i]
 		if o1.key() != o2.key() {
 			run.Violate(vh.Violation{Key: "C18:nondeterministic-decision", What: "the same request served twice on " + st.name + " gave different outcomes", Case: c, Observed: []observation{o1, o2}})
 		}
-		// production path (chi takes its routing context from its pool): same status and sends
-		if st.full && o1.Class != "baduri" {
-			var o3 observation
-			vh.Guard(func() { o3, _ = serveOnce(st, raw, false) })
+		if res.hasUnseeded[i] {
+			o3 := res.unseeded[i]
 			if o3.Status != o1.Status || o3.Shutdown != o1.Shutdown || o3.Trigger != o1.Trigger {
 				run.Tie(fmt.Sprintf("serving %s %s with and without a pre-seeded chi context differs: %+v vs %+v", c.Method, c.PathQ, o1, o3))
 			}
@@ -500,8 +561,8 @@ func (w *world) runCase(c reqCase, canon *yamlOp) {
 	}
 	// ---- model case
 	parsedTerm := "None"
-	if parsed != nil {
-		parsedTerm = vh.CSome(vh.CPair(vh.CStr(parsed.URL.Path), vh.CStr(parsed.URL.RawPath)))
+	if res.parsedOK {
+		parsedTerm = vh.CSome(vh.CPair(vh.CStr(res.path), vh.CStr(res.rawPath)))
 	}
 	allBad := obs[0].Class == "baduri"
 	for _, o := range obs {
@@ -744,7 +805,7 @@ func genRandom(r *vh.RNG, ops []yamlOp) (reqCase, *yamlOp) {
 }
 
 // fixedSpellings: hand-enumerated spellings of one canonical path (forced into every run).
-func fixedSpellings(canon string) [][2]string {
+func fixedSpellings(canon, template string) [][2]string {
 	rest := strings.TrimPrefix(canon, mountPrefix) // "/shutdown"
 	first := rest[1:2]
 	out := [][2]string{
@@ -777,6 +838,16 @@ func fixedSpellings(canon string) [][2]string {
 		{mountPrefix, "mount-only"},
 		{mountPrefix + "/", "mount-slash"},
 		{"/", "root"},
+	}
+	if strings.Contains(template, "{") {
+		// the template text itself, and the template with other "parameter names" (kin-openapi's
+		// Paths.Find erases what is between braces, even a slash)
+		re := strings.NewReplacer("{", "{x/y", "}", "z}")
+		out = append(out,
+			[2]string{mountPrefix + template, "template-verbatim"},
+			[2]string{mountPrefix + re.Replace(template), "template-with-slash-in-braces"},
+			[2]string{mountPrefix + strings.NewReplacer("{", "%7B", "}", "%7D").Replace(template), "template-braces-encoded"},
+		)
 	}
 	if i := strings.LastIndex(rest, "/"); i > 0 {
 		out = append(out,
@@ -829,10 +900,11 @@ func main() {
 				}
 			}
 		}
-		w.runCase(c, canon)
+		w.runAll([]job{{c, canon}}, pool)
 		return
 	}
 
+	var jobs []job
 	// 1. canonical requests (reachability)
 	for i := range ops {
 		p, ok := canonicalPath(ops[i])
@@ -840,17 +912,17 @@ func main() {
 			run.Tie("cannot build a schema-valid canonical request for " + ops[i].OpID)
 			continue
 		}
-		w.runCase(mkCase("canonical", ops[i].Method, []byte(p), "", "origin", ops[i].OpID), &ops[i])
+		jobs = append(jobs, job{mkCase("canonical", ops[i].Method, []byte(p), "", "origin", ops[i].OpID), &ops[i]})
 	}
 	// 2. forced: every method x hand-enumerated spellings of every canonical path
 	for i := range ops {
 		p, _ := canonicalPath(ops[i])
-		for _, sp := range fixedSpellings(p) {
+		for _, sp := range fixedSpellings(p, ops[i].Template) {
 			for _, m := range methods {
-				w.runCase(mkCase("forced", m, []byte(sp[0]), "", "origin", ops[i].OpID+":"+sp[1]), nil)
+				jobs = append(jobs, job{mkCase("forced", m, []byte(sp[0]), "", "origin", ops[i].OpID+":"+sp[1]), nil})
 			}
-			w.runCase(mkCase("forced", ops[i].Method, []byte(sp[0]), "?x=1", "origin", ops[i].OpID+":"+sp[1]+"+query"), nil)
-			w.runCase(mkCase("forced", ops[i].Method, []byte(sp[0]), "", "absolute", ops[i].OpID+":"+sp[1]+"+absolute-form"), nil)
+			jobs = append(jobs, job{mkCase("forced", ops[i].Method, []byte(sp[0]), "?x=1", "origin", ops[i].OpID+":"+sp[1]+"+query"), nil})
+			jobs = append(jobs, job{mkCase("forced", ops[i].Method, []byte(sp[0]), "", "absolute", ops[i].OpID+":"+sp[1]+"+absolute-form"), nil})
 		}
 	}
 	// 3. corpus
@@ -858,14 +930,15 @@ func main() {
 		run.Replay = f
 		var c reqCase
 		if err := run.LoadReplay(&c); err == nil {
-			w.runCase(c, nil)
+			jobs = append(jobs, job{c, nil})
 		}
 		run.Replay = ""
 	}
 	// 4. random
-	n := run.Scale(3500, 200000)
+	n := run.Scale(3500, 150000)
 	for i := 0; i < n; i++ {
 		c, _ := genRandom(run.RNG, ops)
-		w.runCase(c, nil)
+		jobs = append(jobs, job{c, nil})
 	}
+	w.runAll(jobs, pool)
 }
